@@ -29,6 +29,8 @@ RuleSets ==
       <<Rule("always", "U"), Rule("scripted", "U"), Rule("scripted", "K0")>>,
       <<Rule("scripted", "U"), Rule("every2", "K0")>>,
       <<Rule("every2", "IT"), Rule("always", "U"), Rule("scripted", "MISSING")>>,
+      \* steps that bring names no earlier step had, next to steps that lack names earlier steps had (name table of the exports)
+      <<Rule("scripted", "U"), Rule("late", "K0")>>, <<Rule("late", "PG"), Rule("scripted", "MISSING"), Rule("late", "U")>>,
       \* every convenience of LogConfig: the shorthand for the common values (alone, shadowed by / shadowing a spelled-out
       \* rule of the same name, next to the progress of the OTHER counter), several extractors under one trigger, whole states
       <<Common("always")>>, <<Common("every2"), Rule("always", "PE")>>,
